@@ -86,6 +86,41 @@ spec('hash-address', ['C20'], 'HASHDET', 'HASHDET:', [
       (Arc::as_ptr(&self.inner) as *const () as usize).hash(&mut hasher);
       hasher.finish()''')])
 
+spec('b64-table-swapped', ['C12'], 'TABLES', 'TABLES:entry', [
+    (ENC, 'b"ABCDEFGHIJKLMNOPQRSTUVWXYZabcdefghijklmnopqrstuvwxyz0123456789+/"', 'b"ABCDEFGHIJKLMNOPQRSTUVWXYZabcdefghijklmnopqrstuvwxyz0123456789/+"')])
+spec('decoder-table-entry', ['C12'], 'TABLES', 'TABLES:decoder', [
+    (DEC, '''   ERR, ERR, ERR, ERR, ERR, ERR, ERR, ERR, ERR, ERR, ERR,  62, COM, ERR, ERR,  63,  // 2''',
+          '''   ERR, ERR, ERR, ERR, ERR, ERR, ERR, ERR, ERR, ERR, ERR,  62, COM,  62, ERR,  63,  // 2''')])
+spec('separator-dot', ['C12', 'C11', 'C19'], 'ALPHABET', 'ALPHABET:', [
+    (ENC, "      self.mappings.push(b',');", "      self.mappings.push(b'.');")])
+spec('encoder-writes-nonascii', ['C19', 'C11'], 'ALPHABET', 'ALPHABET:', [
+    (ENC, '''          self.current_original_line = original.original_line;
+          self.mappings.extend(b"AACA");''', '''          self.current_original_line = original.original_line;
+          self.mappings.push(original.original_line as u8);''')])
+spec('json-key-renamed-one-side', ['C15'], 'JSON-NAMES', 'JSON-NAMES:', [
+    (SRC, '''  #[serde(rename = "sourceRoot")]
+  pub source_root: Option<String>,''', '''  pub source_root: Option<String>,''')])
+spec('json-flow-swapped', ['C15'], 'JSON-FLOW', 'JSON-FLOW:flow', [
+    (SRC, '''    let source_root = raw.source_root.map(Into::into);
+    let debug_id = raw.debug_id.map(Into::into);''', '''    let source_root = raw.debug_id.map(Into::into);
+    let debug_id = raw.source_root.map(Into::into);''')])
+spec('decoder-guard-dropped', ['C17'], 'DECODER-TOTAL', 'DECODER-TOTAL:', [
+    (DEC, 'if self.current_data_pos < 5 {', 'if self.current_data_pos < 6 {')])
+spec('decoder-accumulating-line', ['C17'], 'DECODER-TOTAL', 'DECODER-TOTAL:', [
+    (DEC, '''          self.generated_line += 1;
+          self.current_data[0] = 0;''', '''          self.generated_line += self.current_data[0] + 1;
+          self.current_data[0] = 0;''')])
+spec('json-entry-unwrap', ['C17'], 'JSON-ENTRY', 'JSON-ENTRY:', [
+    (SRC, '''    let raw: RawSourceMap = simd_json::serde::from_slice(&mut v)?;
+    Ok(raw)
+  }
+
+  pub fn from_json''', '''    let raw: RawSourceMap = simd_json::serde::from_slice(&mut v).unwrap();
+    Ok(raw)
+  }
+
+  pub fn from_json''')])
+
 
 def main():
     os.makedirs(os.path.join(V, 'canaries'), exist_ok=True)
